@@ -433,6 +433,8 @@ class Grid(object):
         value = np.dtype(value).type
         self._dtype = value
         self._data = self._data.astype(value)
+        # .. the nodata value is kept in the type of the cells
+        self._nodata = value(self._nodata)
 
     @property
     def mindata(self):
@@ -1640,17 +1642,18 @@ def accumulate(flowdir, to_accumulate=None, nprint=100,
         max_accumulated_cells = flowdir.nrows * flowdir.ncols
     max_accumulated_cells = np.int64(max_accumulated_cells)
 
-    # Convert flowdir (a copy, the grid of the caller is not retyped)
+    # Set accumulation field (copies, the grids of the caller are not
+    # retyped; the default field is built before flowdir is converted:
+    # its nodata value may not exist in int64)
+    if to_accumulate is None:
+        to_accumulate = flowdir.clone(np.float64)
+        to_accumulate.fill(1)
+    elif to_accumulate.dtype != np.float64:
+        to_accumulate = to_accumulate.clone(np.float64)
+
+    # Convert flowdir
     if flowdir.dtype != np.int64:
         flowdir = flowdir.clone(np.int64)
-
-    # Set accumulation field
-    if to_accumulate is None:
-        to_accumulate = flowdir.clone()
-        to_accumulate.fill(1)
-
-    if to_accumulate.dtype != np.float64:
-        to_accumulate = to_accumulate.clone(np.float64)
 
     # Initiase the accumulation grid with 0 accumulation
     accumulation = to_accumulate.clone()
